@@ -4,7 +4,9 @@
    Model/Walk.v -- for every tree, settings, exclusion predicate, header list and documenter, and
    wherever the output directory is: when it is a directory of the input tree the source prunes it
    from the walk exactly like a directory matched by an exclusion pattern, which the model expresses
-   by the exclusion predicate excl_with_output. *)
+   by the exclusion predicate excl_with_output; and a symbolic link to a directory that os.walk is not
+   going to follow (follow_symlinks off) is pruned in the same way, which the model (it has no symbolic
+   links) expresses by the exclusion predicate excl_with_output_links. *)
 From Coq Require Import String List NArith ZArith Bool Arith Lia Permutation.
 From CMinx Require Import Base.Str Base.PySem Base.PyWalkSem Model.Writer Model.Path Model.Naming
      Model.Pipeline Model.Walk Gen.PyWalkSource Proofs.WalkFacts.
@@ -45,6 +47,14 @@ Definition excl_with_output (excl : list str -> bool -> bool) (o : option (list 
 Definition out_consistent (st : wsettings) (o : option (list str)) : bool :=
   ws_out st || match o with None => true | Some _ => false end.
 
+(* links : which entries below the input are symbolic links (pw_links of the world, A12); follow :
+   settings.input.follow_symlinks.  The exclusion predicate of the model that absorbs both prunings:
+   excl_with_output, or (for a directory other than the input directory itself, when symbolic links
+   are not followed) being a symbolic link. *)
+Definition excl_with_output_links (excl : list str -> bool -> bool) (o : option (list str))
+           (follow : bool) (links : list str -> bool) (rel : list str) (isdir : bool) : bool :=
+  excl_with_output excl o rel isdir || (isdir && negb (is_nil rel) && negb follow && links rel).
+
 Lemma excl_with_output_none : forall excl rel isdir, excl_with_output excl None rel isdir = excl rel isdir.
 Proof.
   intros excl rel isdir. unfold excl_with_output, is_output_dir. rewrite andb_false_r, orb_false_r. reflexivity.
@@ -65,6 +75,48 @@ Proof.
   assert (H : is_nil (rel ++ [d]) = false) by (destruct rel; reflexivity).
   rewrite H. reflexivity.
 Qed.
+
+Lemma excl_with_output_links_file : forall excl o follow links rel,
+  excl_with_output_links excl o follow links rel false = excl rel false.
+Proof.
+  intros excl o follow links rel. unfold excl_with_output_links. rewrite excl_with_output_file.
+  cbn [andb]. apply orb_false_r.
+Qed.
+
+Lemma excl_with_output_links_input : forall excl o follow links isdir,
+  excl_with_output_links excl o follow links [] isdir = excl [] isdir.
+Proof.
+  intros excl o follow links isdir. unfold excl_with_output_links. rewrite excl_with_output_input.
+  cbn [is_nil negb]. rewrite andb_false_r. cbn [andb]. apply orb_false_r.
+Qed.
+
+Lemma excl_with_output_links_dir : forall excl o follow links rel d,
+  excl_with_output_links excl o follow links (rel ++ [d]) true
+  = excl (rel ++ [d]) true || is_output_dir o (rel ++ [d]) || (negb follow && links (rel ++ [d])).
+Proof.
+  intros excl o follow links rel d. unfold excl_with_output_links. rewrite excl_with_output_dir.
+  assert (H : is_nil (rel ++ [d]) = false) by (destruct rel; reflexivity).
+  rewrite H. reflexivity.
+Qed.
+
+(* symbolic links are followed: they are ordinary directories *)
+Lemma excl_with_output_links_followed : forall excl o links rel isdir,
+  excl_with_output_links excl o true links rel isdir = excl_with_output excl o rel isdir.
+Proof.
+  intros excl o links rel isdir. unfold excl_with_output_links. cbn [negb]. rewrite andb_false_r. cbn [andb].
+  apply orb_false_r.
+Qed.
+
+(* there are no symbolic links *)
+Lemma excl_with_output_links_none : forall excl o follow rel isdir,
+  excl_with_output_links excl o follow (fun _ => false) rel isdir = excl_with_output excl o rel isdir.
+Proof.
+  intros excl o follow rel isdir. unfold excl_with_output_links. rewrite andb_false_r. apply orb_false_r.
+Qed.
+
+Lemma if_or : forall {A : Type} (a b : bool) (x y : A),
+  (if a then x else if b then x else y) = if a || b then x else y.
+Proof. intros A a b x y. destruct a, b; reflexivity. Qed.
 
 (* ================================================================== *)
 (* effects                                                             *)
@@ -308,21 +360,21 @@ Section SingleFile2.
   Variable excl : list str -> bool -> bool.
   Variable follow : bool.
 
-  Lemma single_file_dir : forall base top o log rel ch name content sl,
+  Lemma single_file_dir : forall base top o links log rel ch name content sl,
     dir_at top rel = Some ch -> find_file name ch = Some content ->
-    PyWalkSource.document_single_file (PyWorld base (KDir top) o) docfn log
+    PyWalkSource.document_single_file (PyWorld base (KDir top) o links) docfn log
       (APath AInput (rel ++ [name]) false) (APath AInput [] sl) (py_settings_of st hdrs excl follow)
     = emits log (doc_actions st docfn (ws_prefix st) (rel_string (rel ++ [name])) rel name content).
   Proof.
-    intros base top o log rel ch name content sl Hd Hf.
+    intros base top o links log rel ch name content sl Hd Hf.
     unfold PyWalkSource.document_single_file. cbv beta zeta.
     unfold py_settings_of.
     cbn [st_output_directory st_rst_prefix st_rst_module_path_separator st_rst_file_extensions_in_titles
          st_rst_file_extensions_in_modules].
-    assert (Hisdir : forall s0, py_os_path_isdir (PyWorld base (KDir top) o) (APath AInput [] s0) = true) by reflexivity.
+    assert (Hisdir : forall s0, py_os_path_isdir (PyWorld base (KDir top) o links) (APath AInput [] s0) = true) by reflexivity.
     assert (Hrel : forall s0, py_os_path_relpath (APath AInput (rel ++ [name]) false) (APath AInput [] s0)
                    = RPath (rel ++ [name]) false) by reflexivity.
-    assert (Hbase : py_os_path_basename (PyWorld base (KDir top) o) (APath AInput (rel ++ [name]) false) = name).
+    assert (Hbase : py_os_path_basename (PyWorld base (KDir top) o links) (APath AInput (rel ++ [name]) false) = name).
     { unfold py_os_path_basename. cbn [ap_slash ap_comps]. rewrite last_opt_snoc. reflexivity. }
     rewrite !Hisdir, !Hrel, !Hbase, !py_rpath_text_rel.
     set (nm := rel_string (rel ++ [name])).
@@ -336,7 +388,7 @@ Section SingleFile2.
               = APath AOutput (rel ++ [stem name ++ s".rst"]) false).
       { rewrite py_stem_is, py_rpath_of_rst. unfold py_os_path_dirname_rel. cbn [rp_comps].
         rewrite drop_last_snoc. destruct rel; reflexivity. }
-      assert (Hc : pw_file_at (PyWorld base (KDir top) o) (rel ++ [name]) = Some content).
+      assert (Hc : pw_file_at (PyWorld base (KDir top) o links) (rel ++ [name]) = Some content).
       { unfold pw_file_at. cbn [pw_kind]. rewrite (file_at_snoc _ _ _ _ Hd). exact Hf. }
       unfold py_documenter_process, py_Documenter, doc_actions.
       cbn [dc_file dc_header dc_module ap_comps]. rewrite Hc.
@@ -344,7 +396,7 @@ Section SingleFile2.
         as [title modname].
       cbn [fst snd].
       destruct (docfn title modname content); destruct (ws_out st); cbv iota beta;
-        try change (py_os_path_isdir (PyWorld base (KDir top) o) out_root) with true; cbv iota;
+        try change (py_os_path_isdir (PyWorld base (KDir top) o links) out_root) with true; cbv iota;
         rewrite ?Hpath;
         unfold py_os_makedirs, py_rendered_write_to_file, py_print, py_rendered_str, out_root, emits;
         cbn [ap_anchor ap_comps fold_left];
@@ -357,18 +409,18 @@ Section SingleFile2.
         destruct (ws_ext_titles st); rewrite <- ?app_assoc; reflexivity.
   Qed.
 
-  Lemma single_file_file : forall base content o log,
-    PyWalkSource.document_single_file (PyWorld base (KFile content) o) docfn log
+  Lemma single_file_file : forall base content o links log,
+    PyWalkSource.document_single_file (PyWorld base (KFile content) o links) docfn log
       (APath AInput [] false) (APath AInput [] false) (py_settings_of st hdrs excl follow)
     = emits log (doc_actions st docfn (ws_prefix st) base [] base content).
   Proof.
-    intros base content o log.
+    intros base content o links log.
     unfold PyWalkSource.document_single_file. cbv beta zeta.
     unfold py_settings_of.
     cbn [st_output_directory st_rst_prefix st_rst_module_path_separator st_rst_file_extensions_in_titles
          st_rst_file_extensions_in_modules].
-    assert (Hisdir : py_os_path_isdir (PyWorld base (KFile content) o) (APath AInput [] false) = false) by reflexivity.
-    assert (Hbase : py_os_path_basename (PyWorld base (KFile content) o) (APath AInput [] false) = base) by reflexivity.
+    assert (Hisdir : py_os_path_isdir (PyWorld base (KFile content) o links) (APath AInput [] false) = false) by reflexivity.
+    assert (Hbase : py_os_path_basename (PyWorld base (KFile content) o links) (APath AInput [] false) = base) by reflexivity.
     rewrite !Hisdir, !Hbase.
     match goal with |- context [py_Documenter _ ?t ?m _] =>
       replace t with (fst (header_and_module (ws_prefix st) (ws_sep st) (ws_ext_titles st) (ws_ext_modules st) base));
@@ -384,7 +436,7 @@ Section SingleFile2.
         as [title modname].
       cbn [fst snd].
       destruct (docfn title modname content); destruct (ws_out st); cbv iota beta;
-        try change (py_os_path_isdir (PyWorld base (KFile content) o) out_root) with true; cbv iota;
+        try change (py_os_path_isdir (PyWorld base (KFile content) o links) out_root) with true; cbv iota;
         rewrite ?Hpath;
         unfold py_os_makedirs, py_rendered_write_to_file, py_print, py_rendered_str, out_root, emits;
         cbn [ap_anchor ap_comps fold_left];
@@ -476,6 +528,9 @@ Section WalkLoop.
   Variable excl : list str -> bool -> bool.
   Variable top : list node.
   Variable prefix : str.
+  (* the world (only its symbolic links matter to os.walk) and followlinks *)
+  Variable w : pyworld.
+  Variable follow : bool.
   Variable body : apath -> list str -> list str -> pylog -> pylog * list str * py_ctl.
 
   (* the loop body, run on the directory at rel (children ch): records the actions of the model's
@@ -493,6 +548,13 @@ Section WalkLoop.
 
   Hypothesis Hbody : body_ok.
 
+  (* a sub-directory the model keeps is one os.walk may descend into (A12): the exclusion predicate
+     of the model covers the symbolic links that are not followed *)
+  Definition links_covered : Prop :=
+    forall rel d, excl (rel ++ [d]) true = false -> follow || negb (pw_links w (rel ++ [d])) = true.
+
+  Hypothesis Hlinks : links_covered.
+
   Lemma visits_node_D : forall rel nm ch,
     visits_node st hdrs docfn excl prefix rel (D nm ch)
     = if keep_dir st excl rel (D nm ch)
@@ -502,28 +564,40 @@ Section WalkLoop.
   Proof. reflexivity. Qed.
 
   Lemma py_walk_node_D : forall tp x ch log,
-    py_walk_node body tp (D x ch) log
+    py_walk_node w follow body tp (D x ch) log
     = let '(st1, dirs, c) := body tp (dir_names ch) (file_names ch) log in
       match c with
       | CBreak | CReturn => (st1, true)
       | CNormal | CContinue =>
           py_walk_each
             (fun nm st' =>
-               match py_assoc_dir
-                       (map (fun c => (node_name c,
-                                       match c with
-                                       | D _ _ => Some (fun tp' st'' => py_walk_node body tp' c st'')
-                                       | F _ _ => None
-                                       end)) ch) nm with
-               | Some walk => walk (py_os_path_join tp (py_rpath_of_name nm)) st'
-               | None => (st', false)
-               end) dirs st1
+               if py_may_descend w follow (py_os_path_join tp (py_rpath_of_name nm)) then
+                 match py_assoc_dir
+                         (map (fun c => (node_name c,
+                                         match c with
+                                         | D _ _ => Some (fun tp' st'' => py_walk_node w follow body tp' c st'')
+                                         | F _ _ => None
+                                         end)) ch) nm with
+                 | Some walk => walk (py_os_path_join tp (py_rpath_of_name nm)) st'
+                 | None => (st', false)
+                 end
+               else (st', false)) dirs st1
       end.
   Proof. reflexivity. Qed.
 
+  Lemma may_descend_kept : forall rel cn cc,
+    keep_dir st excl rel (D cn cc) = true ->
+    py_may_descend w follow (APath AInput (rel ++ [cn]) false) = true.
+  Proof.
+    intros rel cn cc Hk. unfold py_may_descend, py_os_path_islink. cbn [ap_anchor ap_comps ap_slash negb].
+    rewrite andb_true_r. apply Hlinks.
+    cbn [keep_dir] in Hk. apply andb_true_iff in Hk. destruct Hk as [Hk _].
+    apply negb_true_iff in Hk. exact Hk.
+  Qed.
+
   Lemma walk_node_norec : ws_recursive st = false ->
     forall x ch rel sl log, dir_at top rel = Some ch -> level_distinct ch = true ->
-      py_walk_node body (APath AInput rel sl) (D x ch) log
+      py_walk_node w follow body (APath AInput rel sl) (D x ch) log
       = (emits log (snd (visit_dir st hdrs docfn excl prefix rel ch)), true).
   Proof.
     intros Hrec x ch rel sl log Hd Hl. rewrite py_walk_node_D, (Hbody rel ch sl log Hd Hl), Hrec.
@@ -534,7 +608,7 @@ Section WalkLoop.
     forall n, node_distinct n = true ->
     forall x ch, n = D x ch ->
     forall rel sl log, dir_at top rel = Some ch ->
-      py_walk_node body (APath AInput rel sl) n log
+      py_walk_node w follow body (APath AInput rel sl) n log
       = (emits log (flat_map snd (visit_dir st hdrs docfn excl prefix rel ch
                                   :: visits st hdrs docfn excl prefix rel ch)), false).
   Proof.
@@ -546,15 +620,17 @@ Section WalkLoop.
       set (log1 := emits log (snd (visit_dir st hdrs docfn excl prefix rel dc))).
       cbn [flat_map]. rewrite <- emits_app. fold log1.
       set (step := fun (nm : str) (st' : pylog) =>
-               match py_assoc_dir
-                       (map (fun c => (node_name c,
-                                       match c with
-                                       | D _ _ => Some (fun tp' st'' => py_walk_node body tp' c st'')
-                                       | F _ _ => None
-                                       end)) dc) nm with
-               | Some walk => walk (py_os_path_join (APath AInput rel sl) (py_rpath_of_name nm)) st'
-               | None => (st', false)
-               end).
+               if py_may_descend w follow (py_os_path_join (APath AInput rel sl) (py_rpath_of_name nm)) then
+                 match py_assoc_dir
+                         (map (fun c => (node_name c,
+                                         match c with
+                                         | D _ _ => Some (fun tp' st'' => py_walk_node w follow body tp' c st'')
+                                         | F _ _ => None
+                                         end)) dc) nm with
+                 | Some walk => walk (py_os_path_join (APath AInput rel sl) (py_rpath_of_name nm)) st'
+                 | None => (st', false)
+                 end
+               else (st', false)).
       assert (G : forall l, (forall c, In c l -> In c dc) -> forall log0,
                  py_walk_each step (map node_name (filter (keep_dir st excl rel) l)) log0
                  = (emits log0 (flat_map snd (visits st hdrs docfn excl prefix rel l)), false)).
@@ -568,10 +644,10 @@ Section WalkLoop.
             assert (Hin : In (D cn cc) dc) by (apply Hsub; left; reflexivity).
             unfold level_distinct in Hl. apply andb_true_iff in Hl. destruct Hl as [Hld Hlf].
             unfold step at 1.
-            rewrite (py_assoc_dir_in (fun c => fun tp' st'' => py_walk_node body tp' c st'') dc cn cc Hld Hin).
             assert (Hname : py_os_path_join (APath AInput rel sl) (py_rpath_of_name cn)
                             = APath AInput (rel ++ [cn]) false) by reflexivity.
-            rewrite Hname.
+            rewrite !Hname. rewrite (may_descend_kept rel cn cc Ek).
+            rewrite (py_assoc_dir_in (fun c => fun tp' st'' => py_walk_node w follow body tp' c st'') dc cn cc Hld Hin).
             rewrite Forall_forall in IH.
             rewrite (IH (D cn cc) Hin) with (x := cn) (ch := cc).
             * rewrite IHl by exact Hr. rewrite emits_app. rewrite flat_map_app. reflexivity.
@@ -583,15 +659,16 @@ Section WalkLoop.
         rewrite (G dc (fun c Hc => Hc) log1); reflexivity.
   Qed.
 
-  Lemma os_walk_dir : forall base o follow sl log,
+  Lemma os_walk_dir : forall sl log,
+    pw_kind w = KDir top ->
     names_distinct top = true ->
-    py_os_walk (PyWorld base (KDir top) o) (APath AInput [] sl) follow body log
+    py_os_walk w (APath AInput [] sl) follow body log
     = emits log (if ws_recursive st
                  then flat_map snd (visit_dir st hdrs docfn excl prefix [] top
                                     :: visits st hdrs docfn excl prefix [] top)
                  else snd (visit_dir st hdrs docfn excl prefix [] top)).
   Proof.
-    intros base o follow sl log Hdist. unfold py_os_walk, pw_dir_at. cbn [ap_anchor ap_comps pw_kind dir_at].
+    intros sl log Hkind Hdist. unfold py_os_walk, pw_dir_at. rewrite Hkind. cbn [ap_anchor ap_comps dir_at].
     destruct (ws_recursive st) eqn:Hrec.
     - rewrite (walk_node_rec Hrec (D [] top) Hdist [] top eq_refl [] sl log eq_refl). reflexivity.
     - unfold names_distinct in Hdist. apply andb_true_iff in Hdist. destruct Hdist as [Hl _].
@@ -719,12 +796,12 @@ Section Body.
   Qed.
 
   (* the per-file loop *)
-  Lemma docs_loop : forall base top o rel ch sl (b : pylog -> str -> pylog),
+  Lemma docs_loop : forall base top o links rel ch sl (b : pylog -> str -> pylog),
     dir_at top rel = Some ch -> nodup_names (file_names ch) = true ->
     (forall log0 file,
         b log0 file
         = if is_cmake_name file
-          then PyWalkSource.document_single_file (PyWorld base (KDir top) o) docfn log0
+          then PyWalkSource.document_single_file (PyWorld base (KDir top) o links) docfn log0
                  (APath AInput (rel ++ [file]) false) (APath AInput [] sl)
                  (py_settings_of st hdrs excl follow)
           else log0) ->
@@ -735,11 +812,11 @@ Section Body.
                                                      rel (fst f) (snd f)
                                     else []) l).
   Proof.
-    intros base top o rel ch sl b Hd Hnd Hb. unfold py_for.
+    intros base top o links rel ch sl b Hd Hnd Hb. unfold py_for.
     induction l as [|f r IH]; intros Hin log; [reflexivity|].
     cbn [map fold_left flat_map]. rewrite <- emits_app. rewrite <- IH.
     - f_equal. rewrite Hb. destruct (is_cmake_name (fst f)); [|reflexivity].
-      apply (single_file_dir st hdrs docfn excl follow base top o log rel ch (fst f) (snd f) sl Hd).
+      apply (single_file_dir st hdrs docfn excl follow base top o links log rel ch (fst f) (snd f) sl Hd).
       apply find_file_in; [exact Hnd|]. apply Hin. left. reflexivity.
     - intros g Hg. apply Hin. right. exact Hg.
   Qed.
@@ -754,8 +831,8 @@ Section Main.
 
   (* the new disjunct of the exclusion test of the sub-directories:
      os.path.abspath(os.path.join(root, subdir)) == output_dir *)
-  Lemma outdir_test : forall base kind o rel sl d,
-    py_eq_optional (py_npath_eq (PyWorld base kind o))
+  Lemma outdir_test : forall base kind o links rel sl d,
+    py_eq_optional (py_npath_eq (PyWorld base kind o links))
       (py_os_path_abspath_of (py_os_path_join (APath AInput rel sl) (py_rpath_of_name d)))
       (match (if ws_out st then Some out_root else None) with
        | Some p => Some (py_os_path_abspath_of p)
@@ -763,26 +840,42 @@ Section Main.
        end)
     = ws_out st && is_output_dir o (rel ++ [d]).
   Proof.
-    intros base kind o rel sl d. destruct (ws_out st); [|reflexivity].
+    intros base kind o links rel sl d. destruct (ws_out st); [|reflexivity].
     unfold py_eq_optional, py_npath_eq, py_os_path_abspath_of, py_os_path_join, py_rpath_of_name, out_root,
            py_same_position, is_output_dir.
     cbn [ap_anchor ap_comps rp_comps np_anchor np_comps pw_out_in_input andb].
     destruct o as [q|]; [rewrite app_nil_r|]; reflexivity.
   Qed.
 
+  (* the new branch of the exclusion test of the sub-directories:
+     not settings.input.follow_symlinks and os.path.islink(os.path.join(root, subdir)) *)
+  Lemma links_test : forall base kind o links rel sl d,
+    negb follow && py_os_path_islink (PyWorld base kind o links)
+                     (py_os_path_join (APath AInput rel sl) (py_rpath_of_name d))
+    = negb follow && links (rel ++ [d]).
+  Proof.
+    intros base kind o links rel sl d. unfold py_os_path_islink, py_os_path_join, py_rpath_of_name.
+    cbn [ap_anchor ap_comps ap_slash rp_comps rp_slash pw_links negb]. rewrite andb_true_r. reflexivity.
+  Qed.
+
+  (* what a predicate E of the model has to be on the sub-directories: the patterns, or being the
+     output directory, or being a symbolic link that is not followed *)
+  Definition dir_pruned (o : option (list str)) (links : list str -> bool) (p : list str) : bool :=
+    excl p true || (ws_out st && is_output_dir o p) || (negb follow && links p).
+
   (* The directory case for any predicate E of the model that is the patterns on the files and on
-     the input directory, and the patterns or being the output directory on the sub-directories. *)
-  Lemma document_dir_source_gen : forall (E : list str -> bool -> bool) o base top input_file,
+     the input directory, and dir_pruned on the sub-directories. *)
+  Lemma document_dir_source_gen : forall (E : list str -> bool -> bool) o links base top input_file,
     (forall p, E p false = excl p false) ->
     E [] true = excl [] true ->
-    (forall rel d, E (rel ++ [d]) true = excl (rel ++ [d]) true || (ws_out st && is_output_dir o (rel ++ [d]))) ->
+    (forall rel d, E (rel ++ [d]) true = dir_pruned o links (rel ++ [d])) ->
     names_distinct top = true ->
-    PyWalkSource.document (PyWorld base (KDir top) o) docfn [] input_file (py_settings_of st hdrs excl follow)
+    PyWalkSource.document (PyWorld base (KDir top) o links) docfn [] input_file (py_settings_of st hdrs excl follow)
     = Walk.document st hdrs docfn E base (KDir top).
   Proof.
-    intros E o base top input_file HEf HE0 HEd Hdist.
+    intros E o links base top input_file HEf HE0 HEd Hdist.
     unfold PyWalkSource.document, Walk.document.
-    set (w := PyWorld base (KDir top) o).
+    set (w := PyWorld base (KDir top) o links).
     cbv zeta.
     assert (H1 : py_os_path_isdir w (py_os_path_abspath w input_file) = true) by reflexivity.
     rewrite !H1.
@@ -797,7 +890,10 @@ Section Main.
     assert (H6 : py_os_path_isdir w (APath AInput [] true) = true) by reflexivity.
     rewrite !H4, !H5, !H6. cbv iota beta. cbn [negb]. cbv iota beta.
     cbn [fst]. rewrite <- emits_nil. subst w.
-    apply os_walk_dir; [|exact Hdist].
+    apply os_walk_dir; [| |reflexivity|exact Hdist].
+    2:{ unfold links_covered. intros rel d HE. rewrite HEd in HE. unfold dir_pruned in HE.
+        apply orb_false_iff in HE. destruct HE as [_ HE]. cbn [pw_links].
+        destruct follow; [reflexivity|]. cbn [negb andb] in HE. rewrite HE. reflexivity. }
     unfold body_ok. intros rel ch sl log Hd Hl. cbv beta.
     unfold py_settings_of.
     cbn [st_output_directory st_input_recursive st_input_follow_symlinks
@@ -805,7 +901,7 @@ Section Main.
          st_rst_module_path_separator st_rst_file_extensions_in_titles st_rst_file_extensions_in_modules
          st_rst_headers].
     unfold py_copy, py_pathspec_from_lines.
-    assert (Hbn : py_os_path_basename (PyWorld base (KDir top) o) (py_os_path_normpath (APath AInput [] true)) = base)
+    assert (Hbn : py_os_path_basename (PyWorld base (KDir top) o links) (py_os_path_normpath (APath AInput [] true)) = base)
       by reflexivity.
     rewrite !Hbn.
     set (P := match ws_prefix st with Some p => p | None => base end).
@@ -818,7 +914,9 @@ Section Main.
     end.
     match goal with |- context [py_for (dir_names ch) ?b (dir_names ch)] =>
       rewrite (loop_excl b (fun d => E (rel ++ [d]) true) (dir_names ch))
-        by (intros acc x; rewrite HEd, <- (outdir_test base (KDir top) o rel sl x); reflexivity)
+        by (intros acc x; rewrite HEd; unfold dir_pruned;
+            rewrite <- (outdir_test base (KDir top) o links rel sl x), <- (links_test base (KDir top) o links rel sl x);
+            cbv beta zeta; rewrite if_or; reflexivity)
     end.
     set (fs := filter (fun x => negb (E (rel ++ [x]) false)) (file_names ch)).
     set (ds1 := filter (fun d => negb (E (rel ++ [d]) true)) (dir_names ch)).
@@ -888,7 +986,7 @@ Section Main.
     assert (Hsorted : py_sorted fs = map fst (sort_by fst files)).
     { unfold py_sorted. rewrite Hfs. apply sort_by_map_fst. }
     rewrite Hsorted.
-    rewrite (docs_loop (with_prefix st (Some P)) hdrs docfn excl follow base top o rel ch true _ Hd Hlf).
+    rewrite (docs_loop (with_prefix st (Some P)) hdrs docfn excl follow base top o links rel ch true _ Hd Hlf).
     2:{ intros log0 file. reflexivity. }
     2:{ intros f Hf. apply (Permutation_in _ (sort_by_perm fst files)) in Hf.
         unfold files in Hf. apply filter_In in Hf. destruct Hf as [Hf _].
@@ -922,14 +1020,14 @@ Section Main.
       rewrite !map_map, ?map_id; reflexivity.
   Qed.
 
-  Lemma document_file_source_gen : forall (E : list str -> bool -> bool) o base content input_file,
+  Lemma document_file_source_gen : forall (E : list str -> bool -> bool) o links base content input_file,
     E [] false = excl [] false ->
-    PyWalkSource.document (PyWorld base (KFile content) o) docfn [] input_file (py_settings_of st hdrs excl follow)
+    PyWalkSource.document (PyWorld base (KFile content) o links) docfn [] input_file (py_settings_of st hdrs excl follow)
     = Walk.document st hdrs docfn E base (KFile content).
   Proof.
-    intros E o base content input_file HE0.
+    intros E o links base content input_file HE0.
     unfold PyWalkSource.document, Walk.document.
-    set (w := PyWorld base (KFile content) o).
+    set (w := PyWorld base (KFile content) o links).
     cbv zeta.
     assert (H1 : py_os_path_isdir w (py_os_path_abspath w input_file) = false) by reflexivity.
     rewrite !H1.
@@ -948,14 +1046,14 @@ Section Main.
     destruct (ws_out st); reflexivity.
   Qed.
 
-  Lemma document_missing_source_gen : forall (E : list str -> bool -> bool) o base input_file,
+  Lemma document_missing_source_gen : forall (E : list str -> bool -> bool) o links base input_file,
     E [] false = excl [] false ->
-    PyWalkSource.document (PyWorld base KMissing o) docfn [] input_file (py_settings_of st hdrs excl follow)
+    PyWalkSource.document (PyWorld base KMissing o links) docfn [] input_file (py_settings_of st hdrs excl follow)
     = Walk.document st hdrs docfn E base KMissing.
   Proof.
-    intros E o base input_file HE0.
+    intros E o links base input_file HE0.
     unfold PyWalkSource.document, Walk.document.
-    set (w := PyWorld base KMissing o).
+    set (w := PyWorld base KMissing o links).
     cbv zeta.
     assert (H1 : py_os_path_isdir w (py_os_path_abspath w input_file) = false) by reflexivity.
     rewrite !H1.
@@ -969,113 +1067,150 @@ Section Main.
     rewrite !H4. reflexivity.
   Qed.
 
-  Lemma document_source_gen : forall (E : list str -> bool -> bool) o base kind input_file,
+  Lemma document_source_gen : forall (E : list str -> bool -> bool) o links base kind input_file,
     (forall p, E p false = excl p false) ->
     E [] true = excl [] true ->
-    (forall rel d, E (rel ++ [d]) true = excl (rel ++ [d]) true || (ws_out st && is_output_dir o (rel ++ [d]))) ->
+    (forall rel d, E (rel ++ [d]) true = dir_pruned o links (rel ++ [d])) ->
     kind_distinct kind = true ->
-    PyWalkSource.document (PyWorld base kind o) docfn [] input_file (py_settings_of st hdrs excl follow)
+    PyWalkSource.document (PyWorld base kind o links) docfn [] input_file (py_settings_of st hdrs excl follow)
     = Walk.document st hdrs docfn E base kind.
   Proof.
-    intros E o base kind input_file HEf HE0 HEd Hk. destruct kind as [|content|top].
+    intros E o links base kind input_file HEf HE0 HEd Hk. destruct kind as [|content|top].
     - apply document_missing_source_gen. apply HEf.
     - apply document_file_source_gen. apply HEf.
     - apply document_dir_source_gen; assumption.
   Qed.
 
-  (* ---- the main theorem: document() of the current source is the model's document, the output
-     directory (when it is a directory of the input tree) being pruned like an excluded one ---- *)
-  Theorem document_matches_source : forall base kind input_file o,
+  (* ---- the main theorem: document() of the current source is the model's document; the output
+     directory (when it is a directory of the input tree) and, when symbolic links are not followed,
+     every symbolic link to a directory are pruned like an excluded directory ---- *)
+  Theorem document_matches_source : forall base kind input_file o links,
     kind_distinct kind = true -> out_consistent st o = true ->
-    PyWalkSource.document (PyWorld base kind o) docfn [] input_file (py_settings_of st hdrs excl follow)
-    = Walk.document st hdrs docfn (excl_with_output excl o) base kind.
+    PyWalkSource.document (PyWorld base kind o links) docfn [] input_file (py_settings_of st hdrs excl follow)
+    = Walk.document st hdrs docfn (excl_with_output_links excl o follow links) base kind.
   Proof.
-    intros base kind input_file o Hk Ho. apply document_source_gen.
-    - intros p. apply excl_with_output_file.
-    - apply excl_with_output_input.
-    - intros rel d. rewrite excl_with_output_dir. f_equal.
+    intros base kind input_file o links Hk Ho. apply document_source_gen.
+    - intros p. apply excl_with_output_links_file.
+    - apply excl_with_output_links_input.
+    - intros rel d. rewrite excl_with_output_links_dir. unfold dir_pruned. f_equal. f_equal.
       unfold out_consistent in Ho. destruct (ws_out st); [reflexivity|].
       destruct o as [q|]; [discriminate Ho|reflexivity].
     - exact Hk.
   Qed.
 
   (* the three branches, in the shape of the main theorem *)
-  Corollary document_dir_source : forall base top input_file o,
+  Corollary document_dir_source : forall base top input_file o links,
     names_distinct top = true -> out_consistent st o = true ->
-    PyWalkSource.document (PyWorld base (KDir top) o) docfn [] input_file (py_settings_of st hdrs excl follow)
-    = Walk.document st hdrs docfn (excl_with_output excl o) base (KDir top).
-  Proof. intros base top input_file o Hd Ho. apply (document_matches_source base (KDir top) input_file o Hd Ho). Qed.
+    PyWalkSource.document (PyWorld base (KDir top) o links) docfn [] input_file (py_settings_of st hdrs excl follow)
+    = Walk.document st hdrs docfn (excl_with_output_links excl o follow links) base (KDir top).
+  Proof.
+    intros base top input_file o links Hd Ho. apply (document_matches_source base (KDir top) input_file o links Hd Ho).
+  Qed.
 
-  Corollary document_file_source : forall base content input_file o,
-    PyWalkSource.document (PyWorld base (KFile content) o) docfn [] input_file (py_settings_of st hdrs excl follow)
+  Corollary document_file_source : forall base content input_file o links,
+    PyWalkSource.document (PyWorld base (KFile content) o links) docfn [] input_file (py_settings_of st hdrs excl follow)
     = Walk.document st hdrs docfn excl base (KFile content).
-  Proof. intros base content input_file o. apply document_file_source_gen. reflexivity. Qed.
+  Proof. intros base content input_file o links. apply document_file_source_gen. reflexivity. Qed.
 
-  Corollary document_missing_source : forall base input_file o,
-    PyWalkSource.document (PyWorld base KMissing o) docfn [] input_file (py_settings_of st hdrs excl follow)
+  Corollary document_missing_source : forall base input_file o links,
+    PyWalkSource.document (PyWorld base KMissing o links) docfn [] input_file (py_settings_of st hdrs excl follow)
     = Walk.document st hdrs docfn excl base KMissing.
-  Proof. intros base input_file o. apply document_missing_source_gen. reflexivity. Qed.
+  Proof. intros base input_file o links. apply document_missing_source_gen. reflexivity. Qed.
 
-  (* the output directory is not in the input tree (or none is configured): the statement as it
-     was before the pruning existed, with the exclusion patterns alone *)
+  (* no symbolic links below the input: the statement as it was before the pruning of the links
+     existed, with the exclusion predicate excl_with_output *)
+  Theorem document_matches_source_no_links : forall base kind input_file o,
+    kind_distinct kind = true -> out_consistent st o = true ->
+    PyWalkSource.document (PyWorld base kind o (fun _ => false)) docfn [] input_file
+                          (py_settings_of st hdrs excl follow)
+    = Walk.document st hdrs docfn (excl_with_output excl o) base kind.
+  Proof.
+    intros base kind input_file o Hk Ho. apply document_source_gen.
+    - intros p. apply excl_with_output_file.
+    - apply excl_with_output_input.
+    - intros rel d. rewrite excl_with_output_dir. unfold dir_pruned. rewrite andb_false_r, orb_false_r. f_equal.
+      unfold out_consistent in Ho. destruct (ws_out st); [reflexivity|].
+      destruct o as [q|]; [discriminate Ho|reflexivity].
+    - exact Hk.
+  Qed.
+
+  (* no symbolic links and the output directory is not in the input tree (or none is configured):
+     the statement as it was before either pruning existed, with the exclusion patterns alone *)
   Theorem document_matches_source_output_outside : forall base kind input_file,
     kind_distinct kind = true ->
-    PyWalkSource.document (PyWorld base kind None) docfn [] input_file (py_settings_of st hdrs excl follow)
+    PyWalkSource.document (PyWorld base kind None (fun _ => false)) docfn [] input_file
+                          (py_settings_of st hdrs excl follow)
     = Walk.document st hdrs docfn excl base kind.
   Proof.
     intros base kind input_file Hk. apply document_source_gen.
     - reflexivity.
     - reflexivity.
-    - intros rel d. cbn [is_output_dir]. rewrite andb_false_r, orb_false_r. reflexivity.
+    - intros rel d. unfold dir_pruned. cbn [is_output_dir]. rewrite !andb_false_r, !orb_false_r. reflexivity.
     - exact Hk.
   Qed.
 
   (* an input matched by the exclusion patterns: nothing at all, whatever is there and wherever
      the output directory is *)
-  Theorem document_excluded_input_source : forall base kind input_file o,
+  Theorem document_excluded_input_source : forall base kind input_file o links,
     excl [] (match kind with KDir _ => true | _ => false end) = true ->
-    PyWalkSource.document (PyWorld base kind o) docfn [] input_file (py_settings_of st hdrs excl follow) = [].
+    PyWalkSource.document (PyWorld base kind o links) docfn [] input_file (py_settings_of st hdrs excl follow) = [].
   Proof.
-    intros base kind input_file o He.
+    intros base kind input_file o links He.
     unfold PyWalkSource.document. cbv zeta.
     destruct kind as [|content|top].
-    - assert (H1 : py_os_path_isdir (PyWorld base KMissing o) (py_os_path_abspath (PyWorld base KMissing o) input_file) = false)
+    - assert (H1 : py_os_path_isdir (PyWorld base KMissing o links) (py_os_path_abspath (PyWorld base KMissing o links) input_file) = false)
         by reflexivity.
       rewrite !H1.
       assert (H3 : py_spec_match_file (py_pathspec_from_lines (st_input_exclude_filters (py_settings_of st hdrs excl follow)))
-                     (py_os_path_abspath (PyWorld base KMissing o) input_file) = excl [] false) by reflexivity.
+                     (py_os_path_abspath (PyWorld base KMissing o links) input_file) = excl [] false) by reflexivity.
       rewrite !H3, He. reflexivity.
-    - assert (H1 : py_os_path_isdir (PyWorld base (KFile content) o)
-                     (py_os_path_abspath (PyWorld base (KFile content) o) input_file) = false) by reflexivity.
+    - assert (H1 : py_os_path_isdir (PyWorld base (KFile content) o links)
+                     (py_os_path_abspath (PyWorld base (KFile content) o links) input_file) = false) by reflexivity.
       rewrite !H1.
       assert (H3 : py_spec_match_file (py_pathspec_from_lines (st_input_exclude_filters (py_settings_of st hdrs excl follow)))
-                     (py_os_path_abspath (PyWorld base (KFile content) o) input_file) = excl [] false) by reflexivity.
+                     (py_os_path_abspath (PyWorld base (KFile content) o links) input_file) = excl [] false) by reflexivity.
       rewrite !H3, He. reflexivity.
-    - assert (H1 : py_os_path_isdir (PyWorld base (KDir top) o)
-                     (py_os_path_abspath (PyWorld base (KDir top) o) input_file) = true) by reflexivity.
+    - assert (H1 : py_os_path_isdir (PyWorld base (KDir top) o links)
+                     (py_os_path_abspath (PyWorld base (KDir top) o links) input_file) = true) by reflexivity.
       rewrite !H1.
       assert (H3 : py_spec_match_file (py_pathspec_from_lines (st_input_exclude_filters (py_settings_of st hdrs excl follow)))
-                     (py_os_path_join (py_os_path_abspath (PyWorld base (KDir top) o) input_file) py_rpath_empty)
+                     (py_os_path_join (py_os_path_abspath (PyWorld base (KDir top) o links) input_file) py_rpath_empty)
                    = excl [] true) by reflexivity.
       rewrite !H3, He. reflexivity.
   Qed.
 
   (* ---- document_single_file of the current source is the model's doc_actions ---- *)
   (* a file below an input directory (the call from the walk) *)
-  Theorem document_single_file_matches_source : forall base top o log rel ch name content sl,
+  Theorem document_single_file_matches_source : forall base top o links log rel ch name content sl,
     dir_at top rel = Some ch -> find_file name ch = Some content ->
-    PyWalkSource.document_single_file (PyWorld base (KDir top) o) docfn log
+    PyWalkSource.document_single_file (PyWorld base (KDir top) o links) docfn log
       (APath AInput (rel ++ [name]) false) (APath AInput [] sl) (py_settings_of st hdrs excl follow)
     = emits log (doc_actions st docfn (ws_prefix st) (rel_string (rel ++ [name])) rel name content).
   Proof. exact (single_file_dir st hdrs docfn excl follow). Qed.
 
   (* the input is itself a regular file *)
-  Theorem document_single_file_matches_source_file : forall base content o log,
-    PyWalkSource.document_single_file (PyWorld base (KFile content) o) docfn log
+  Theorem document_single_file_matches_source_file : forall base content o links log,
+    PyWalkSource.document_single_file (PyWorld base (KFile content) o links) docfn log
       (APath AInput [] false) (APath AInput [] false) (py_settings_of st hdrs excl follow)
     = emits log (doc_actions st docfn (ws_prefix st) base [] base content).
   Proof. exact (single_file_file st hdrs docfn excl follow). Qed.
 End Main.
+
+(* symbolic links are followed (follow_symlinks on): whatever is a link, the statement with the
+   exclusion predicate excl_with_output *)
+Theorem document_matches_source_links_followed : forall st hdrs docfn excl base kind input_file o links,
+  kind_distinct kind = true -> out_consistent st o = true ->
+  PyWalkSource.document (PyWorld base kind o links) docfn [] input_file (py_settings_of st hdrs excl true)
+  = Walk.document st hdrs docfn (excl_with_output excl o) base kind.
+Proof.
+  intros st hdrs docfn excl base kind input_file o links Hk Ho. apply document_source_gen.
+  - intros p. apply excl_with_output_file.
+  - apply excl_with_output_input.
+  - intros rel d. rewrite excl_with_output_dir. unfold dir_pruned. cbn [negb andb]. rewrite orb_false_r. f_equal.
+    unfold out_consistent in Ho. destruct (ws_out st); [reflexivity|].
+    destruct o as [q|]; [discriminate Ho|reflexivity].
+  - exact Hk.
+Qed.
 
 (* ================================================================== *)
 (* link with the well-formedness predicate of Proofs/WalkFacts.v       *)
@@ -1158,10 +1293,16 @@ Module Examples.
   Definition hdrs1 : list str := [s"#"; s"*"; s"="].
   Definition mk (out rec : bool) (pre : option str) (auto : bool) : wsettings :=
     Build_wsettings out rec pre auto (s".") false true.
-  (* o: where the output directory is relative to the input *)
+  (* o: where the output directory is relative to the input; links: the symbolic links below the
+     input; follow: settings.input.follow_symlinks *)
+  Definition run_links (follow : bool) (links : list str -> bool) (o : option (list str)) (st : wsettings)
+             (kind : input_kind) : list action :=
+    PyWalkSource.document (PyWorld (s"proj") kind o links) docfn1 [] (s"some/where/proj")
+                          (py_settings_of st hdrs1 excl1 follow).
+  Definition no_links (rel : list str) : bool := false.
+  (* no symbolic links *)
   Definition run_at (o : option (list str)) (st : wsettings) (kind : input_kind) : list action :=
-    PyWalkSource.document (PyWorld (s"proj") kind o) docfn1 [] (s"some/where/proj")
-                          (py_settings_of st hdrs1 excl1 true).
+    run_links true no_links o st kind.
   (* the output directory outside the input tree *)
   Definition run (st : wsettings) (kind : input_kind) : list action := run_at None st kind.
   Definition model (st : wsettings) (kind : input_kind) : list action :=
@@ -1226,7 +1367,7 @@ Module Examples.
 
   (* the other input kinds *)
   Definition runf (st : wsettings) : list action :=
-    PyWalkSource.document (PyWorld (s"top.cmake") (KFile [1%N]) None) docfn1 [] (s"top.cmake")
+    PyWalkSource.document (PyWorld (s"top.cmake") (KFile [1%N]) None no_links) docfn1 [] (s"top.cmake")
                           (py_settings_of st hdrs1 excl1 true).
   Example run_file :
     runf (mk true true None true) = Walk.document (mk true true None true) hdrs1 docfn1 excl1 (s"top.cmake") (KFile [1%N])
@@ -1238,7 +1379,7 @@ Module Examples.
   Example run_missing : run (mk true true None true) KMissing = [AExit255].
   Proof. vm_compute. reflexivity. Qed.
   Example run_excluded_input :
-    PyWalkSource.document (PyWorld (s"proj") (KDir tree) None) docfn1 [] (s"proj")
+    PyWalkSource.document (PyWorld (s"proj") (KDir tree) None no_links) docfn1 [] (s"proj")
                           (py_settings_of (mk true true None true) hdrs1 (fun _ _ => true) true) = [].
   Proof. vm_compute. reflexivity. Qed.
 
@@ -1315,6 +1456,89 @@ Module Examples.
     intros H. apply (f_equal (@length action)) in H. vm_compute in H. discriminate H.
   Qed.
 
+  (* ---- symbolic links to directories ----
+     proj/vendor is a symbolic link to a directory holding v.cmake and a sub-directory inner with
+     i.cmake; proj/src/ext is another one; proj/lib/ext is a real directory of the same name.
+     Recursive, output directory configured (outside the input), auto-exclusion on. *)
+  Definition tree_link : list node :=
+    [ F (s"top.cmake") [1%N];
+      D (s"vendor") [ F (s"v.cmake") [2%N]; D (s"inner") [ F (s"i.cmake") [3%N] ] ];
+      D (s"src") [ F (s"a.cmake") [4%N]; D (s"ext") [ F (s"e.cmake") [5%N] ] ];
+      D (s"lib") [ F (s"l.cmake") [6%N]; D (s"ext") [ F (s"f.cmake") [7%N] ] ] ].
+  Definition links1 (rel : list str) : bool :=
+    strs_eqb rel [s"vendor"] || strs_eqb rel [s"src"; s"ext"].
+  Definition st_link : wsettings := mk true true None true.
+  Definition below_vendor (p : list str) : bool :=
+    match p with a :: _ => str_eqb a (s"vendor") | _ => false end.
+
+  Example tree_link_hypotheses :
+    names_distinct tree_link = true /\ out_consistent st_link None = true
+    /\ dir_at tree_link [s"vendor"; s"inner"] <> None /\ links1 [s"vendor"] = true
+    /\ links1 [s"lib"; s"ext"] = false.
+  Proof. repeat split; vm_compute; try reflexivity. discriminate. Qed.
+
+  (* follow_symlinks off: nothing at or below proj/vendor and proj/src/ext is written, the index of
+     proj does not list vendor/index.rst, the index of proj/src does not list ext/index.rst, the
+     real directory proj/lib/ext is documented; and the run is the model's with the predicate
+     excl_with_output_links *)
+  Example run_links_not_followed :
+    run_links false links1 None st_link (KDir tree_link)
+    = Walk.document st_link hdrs1 docfn1 (excl_with_output_links excl1 None false links1) (s"proj") (KDir tree_link)
+    /\ wpaths (run_links false links1 None st_link (KDir tree_link))
+       = [ [s"index.rst"]; [s"top.rst"];
+           [s"src"; s"index.rst"]; [s"src"; s"a.rst"];
+           [s"lib"; s"index.rst"]; [s"lib"; s"l.rst"];
+           [s"lib"; s"ext"; s"index.rst"]; [s"lib"; s"ext"; s"f.rst"] ]
+    /\ existsb below_vendor (touched (run_links false links1 None st_link (KDir tree_link))) = false
+    /\ map (contains (s"vendor/index.rst")) (index_of [] (run_links false links1 None st_link (KDir tree_link))) = [false]
+    /\ map (contains (s"src/index.rst")) (index_of [] (run_links false links1 None st_link (KDir tree_link))) = [true]
+    /\ map (contains (s"ext/index.rst")) (index_of [s"src"] (run_links false links1 None st_link (KDir tree_link))) = [false]
+    /\ map (contains (s"ext/index.rst")) (index_of [s"lib"] (run_links false links1 None st_link (KDir tree_link))) = [true].
+  Proof. repeat split; vm_compute; reflexivity. Qed.
+
+  (* follow_symlinks on: the links are documented like normal directories (the run is the one on
+     the same tree without any link, and the model's with the patterns alone) *)
+  Example run_links_followed :
+    run_links true links1 None st_link (KDir tree_link)
+    = Walk.document st_link hdrs1 docfn1 (excl_with_output_links excl1 None true links1) (s"proj") (KDir tree_link)
+    /\ run_links true links1 None st_link (KDir tree_link) = run_links true no_links None st_link (KDir tree_link)
+    /\ run_links true links1 None st_link (KDir tree_link) = model st_link (KDir tree_link)
+    /\ wpaths (run_links true links1 None st_link (KDir tree_link))
+       = [ [s"index.rst"]; [s"top.rst"];
+           [s"vendor"; s"index.rst"]; [s"vendor"; s"v.rst"];
+           [s"vendor"; s"inner"; s"index.rst"]; [s"vendor"; s"inner"; s"i.rst"];
+           [s"src"; s"index.rst"]; [s"src"; s"a.rst"];
+           [s"src"; s"ext"; s"index.rst"]; [s"src"; s"ext"; s"e.rst"];
+           [s"lib"; s"index.rst"]; [s"lib"; s"l.rst"];
+           [s"lib"; s"ext"; s"index.rst"]; [s"lib"; s"ext"; s"f.rst"] ]
+    /\ map (contains (s"vendor/index.rst")) (index_of [] (run_links true links1 None st_link (KDir tree_link))) = [true].
+  Proof. repeat split; vm_compute; reflexivity. Qed.
+
+  (* the link pruning and the output pruning together: the output directory is proj/lib/ext *)
+  Example run_links_and_output_inside :
+    run_links false links1 (Some [s"lib"; s"ext"]) st_link (KDir tree_link)
+    = Walk.document st_link hdrs1 docfn1 (excl_with_output_links excl1 (Some [s"lib"; s"ext"]) false links1)
+                    (s"proj") (KDir tree_link)
+    /\ wpaths (run_links false links1 (Some [s"lib"; s"ext"]) st_link (KDir tree_link))
+       = [ [s"index.rst"]; [s"top.rst"]; [s"src"; s"index.rst"]; [s"src"; s"a.rst"];
+           [s"lib"; s"index.rst"]; [s"lib"; s"l.rst"] ].
+  Proof. split; vm_compute; reflexivity. Qed.
+
+  (* os.walk itself (A12), with a body that prunes nothing and records the directories it is run
+     for: with followlinks=False a link left in the list is listed (it is among the names the body
+     sees) but not descended into; with followlinks=True it is walked like any directory.  This is
+     what a document() without the new branch would run on: the link stays in the toctree of its
+     parent and gets no index.rst, which no instance of the model does. *)
+  Definition seen (follow : bool) : list action :=
+    py_os_walk (PyWorld (s"proj") (KDir tree_link) None links1) (APath AInput [] true) follow
+      (fun root subdirs filenames (log : pylog) =>
+         (log ++ [APrint (join [slash] (ap_comps root) ++ s":" ++ join (s",") subdirs)], subdirs, CNormal)) [].
+  Example os_walk_lists_but_does_not_enter_unfollowed_link :
+    seen false = [ APrint (s":vendor,src,lib"); APrint (s"src:ext"); APrint (s"lib:ext"); APrint (s"lib/ext:") ]
+    /\ seen true = [ APrint (s":vendor,src,lib"); APrint (s"vendor:inner"); APrint (s"vendor/inner:");
+                     APrint (s"src:ext"); APrint (s"src/ext:"); APrint (s"lib:ext"); APrint (s"lib/ext:") ].
+  Proof. split; vm_compute; reflexivity. Qed.
+
   (* The hypothesis names_distinct cannot be dropped: on a tree with two sibling directories of
      the same name (which no file system has) the lookups by name of os.scandir / os.walk reach
      the first one twice, while the model treats the two nodes separately. *)
@@ -1331,10 +1555,13 @@ End Examples.
 
 (* ==== MAIN THEOREMS ==== *)
 (* document_matches_source                 document() of the current source = Walk.document with the
-                                           exclusion predicate excl_with_output excl o, o = where the
-                                           output directory is relative to the input
-   document_matches_source_output_outside  o = None: = Walk.document with excl (the statement as it was)
+                                           exclusion predicate excl_with_output_links excl o follow links,
+                                           o = where the output directory is relative to the input,
+                                           links = the symbolic links below the input
+   document_matches_source_no_links        links = fun _ => false: = Walk.document with excl_with_output excl o
+   document_matches_source_output_outside  and o = None: = Walk.document with excl (the statement as it was)
    excl_with_output_none / _file / _input / _dir   what excl_with_output is
+   excl_with_output_links_file / _input / _dir / _followed / _none   what excl_with_output_links is
    document_source_gen                     the same for any predicate that is the patterns on files and on the
                                            input, and the patterns or being the output directory on sub-directories
    document_dir_source / document_file_source / document_missing_source   its three branches
@@ -1342,10 +1569,19 @@ End Examples.
    document_single_file_matches_source     document_single_file for a file below an input directory
    document_single_file_matches_source_file   ... for an input that is a regular file
    tree_ok_names_distinct                  WalkFacts.tree_ok implies the hypothesis names_distinct
-   os_walk_dir / walk_node_rec             os.walk with a body that does one model step is the model walk
+   document_matches_source_links_followed  follow = true: = Walk.document with excl_with_output excl o
+   os_walk_dir / walk_node_rec             os.walk with a body that does one model step is the model walk, when
+                                           the model predicate covers the links that are not followed (links_covered)
    Examples.document_matches_source_without_distinct_names_refuted *)
 Print Assumptions document_matches_source.
+Print Assumptions document_matches_source_no_links.
 Print Assumptions document_matches_source_output_outside.
+Print Assumptions document_matches_source_links_followed.
+Print Assumptions document_source_gen.
+Print Assumptions excl_with_output_links_dir.
+Print Assumptions Examples.run_links_not_followed.
+Print Assumptions Examples.run_links_followed.
+Print Assumptions Examples.os_walk_lists_but_does_not_enter_unfollowed_link.
 Print Assumptions excl_with_output_none.
 Print Assumptions Examples.run_output_inside_input.
 Print Assumptions document_excluded_input_source.
